@@ -116,6 +116,7 @@ type ConnCfg struct {
 	NodeID      string `json:"nodeID,omitempty"`
 	Unreliable  bool   `json:"unreliable,omitempty"` // offer a second, unreliable transport (AsUnreliable)
 	Encoding    string `json:"encoding,omitempty"`   // "" = protobuf (library default) | "json"
+	AliasReuse  bool   `json:"aliasReuse,omitempty"` // the broker hands out the stream aliases of closed upstreams again
 }
 
 type Scenario struct {
@@ -186,7 +187,9 @@ type Driver struct {
 
 func NewDriver(sc *Scenario) *Driver {
 	rec := NewRec(sc.ID)
-	d := &Driver{sc: sc, rec: rec, b: NewBrokerEnc(rec, sc.Conn.Encoding),
+	brk := NewBrokerEnc(rec, sc.Conn.Encoding)
+	brk.SetAliasReuse(sc.Conn.AliasReuse)
+	d := &Driver{sc: sc, rec: rec, b: brk,
 		ups: map[string]*iscp.Upstream{}, downs: map[string]*iscp.Downstream{}, sids: map[string]string{},
 		procs: map[string]*proc{}, calls: map[string]string{}}
 	d.wd = 5 * time.Second
